@@ -63,6 +63,57 @@ Section Structure.
     unfold from_runtime_repr in H. destruct (check_valid e) as [[]|x] eqn:Hv; [|discriminate].
     injection H as <-. repeat split. apply file_roundtrip; assumption.
   Qed.
+  (** Whatever the encoded-form cache of the live object holds ([h_raw s] is arbitrary: stale bytes from
+      before an edit, bytes read from an earlier file, nothing), a save stores the encoding of the content
+      the object has now, and loading that file gives this content back, with the cache equal to the
+      stored bytes. *)
+  Lemma history_step s : wf (h_obj s) -> check_valid (h_obj s) = Ok tt ->
+    exists s1 s2,
+      hstep check_valid store s HSave = (s1, EvSaved (mangle (h_obj s)))
+      /\ h_obj s1 = h_obj s /\ h_raw s1 = mangle (h_obj s)
+      /\ hstep check_valid store s1 HLoad = (s2, EvLoaded (Ok (h_obj s)))
+      /\ h_obj s2 = h_obj s /\ h_raw s2 = mangle (h_obj s).
+  Proof.
+    intros Hwf Hv. unfold hstep. rewrite Hv, store_faithful. eexists _, _.
+    split; [reflexivity|]. cbn [h_obj h_raw h_file]. split; [reflexivity|]. split; [reflexivity|].
+    unfold unmangle, mangle. rewrite (parse_print _ Hwf), Hv. cbn [h_obj h_raw].
+    repeat split; reflexivity.
+  Qed.
+
+  (** An edit or a request for the encoded form never changes what the next save stores for a given
+      content: the events of a history do not depend on the initial cache. *)
+  Lemma history_cache_irrelevant ops : forall s raw',
+    snd (hrun check_valid store s ops)
+    = snd (hrun check_valid store {| h_obj := h_obj s; h_raw := raw'; h_file := h_file s |} ops)
+    /\ h_obj (fst (hrun check_valid store s ops))
+       = h_obj (fst (hrun check_valid store {| h_obj := h_obj s; h_raw := raw'; h_file := h_file s |} ops))
+    /\ h_file (fst (hrun check_valid store s ops))
+       = h_file (fst (hrun check_valid store {| h_obj := h_obj s; h_raw := raw'; h_file := h_file s |} ops)).
+  Proof.
+    induction ops as [|o ops IH]; intros s raw'; [repeat split; reflexivity|].
+    cbn [hrun].
+    assert (Hstep : exists r1 r2,
+               hstep check_valid store s o
+               = ({| h_obj := h_obj (fst (hstep check_valid store s o)); h_raw := r1;
+                     h_file := h_file (fst (hstep check_valid store s o)) |}, snd (hstep check_valid store s o))
+               /\ hstep check_valid store {| h_obj := h_obj s; h_raw := raw'; h_file := h_file s |} o
+                  = ({| h_obj := h_obj (fst (hstep check_valid store s o)); h_raw := r2;
+                        h_file := h_file (fst (hstep check_valid store s o)) |}, snd (hstep check_valid store s o))).
+    { destruct s as [obj raw file]. destruct o as [c| | |]; cbn [hstep h_obj h_raw h_file].
+      - eexists _, _. split; reflexivity.
+      - eexists _, _. split; reflexivity.
+      - destruct (check_valid obj) as [[]|x]; [|eexists _, _; split; reflexivity].
+        destruct (store (mangle obj)); eexists _, _; split; reflexivity.
+      - destruct file as [b|]; [|eexists _, _; split; reflexivity].
+        destruct (unmangle b) as [j|]; [|eexists _, _; split; reflexivity].
+        destruct (check_valid j) as [[]|x]; eexists _, _; split; reflexivity. }
+    destruct Hstep as (r1 & r2 & E1 & E2). rewrite E1, E2.
+    set (s1 := {| h_obj := _; h_raw := r1; h_file := _ |}).
+    specialize (IH s1 r2). cbn [h_obj h_file] in IH. destruct IH as (IHa & IHb & IHc).
+    destruct (hrun check_valid store s1 ops) as [sa ea].
+    destruct (hrun check_valid store _ ops) as [sb eb]. cbn [fst snd] in *.
+    repeat split; congruence.
+  Qed.
 End Structure.
 
 (* ------------------------------------------------------------------------------------------ *)
